@@ -25,7 +25,7 @@ package collections
 //@   immutable capacity mutex OnExpire expiryTimes
 //@   guarded_by mutex: elements
 //@   protects mutex: expiryTimes
-//@   guards mutex: PriorityQueue.qin PriorityQueue.qlen PriorityQueue.qtop PQItem.Priority PQItem.Value PQItem.index
+//@   guards mutex: PriorityQueue.qin PriorityQueue.qlen PriorityQueue.qtop PQItem.Priority PQItem.Value PQItem.index pqImpl.* elems(*PQItem)
 //@   ghost vdom map[string]bool
 //@   ghost vtag map[string]int
 //@   ghost vval map[string]int
@@ -34,6 +34,7 @@ package collections
 //@   lockinv mutex (m): repMapSide(m)
 //@   lockinv mutex (m): repQueueSide(m)
 //@   lockinv mutex (m): coupled(m)
+//@   lockinv mutex (m): queue_represented: pqRep(m.expiryTimes)
 
 //@ type mapElement
 //@   immutable key heapEl
@@ -58,7 +59,7 @@ package collections
 //@ pred repMapSide(m *TTLMap) = m.elements != nil && m.expiryTimes != nil && m.capacity >= 0 && len(m.elements) == m.expiryTimes.qlen && m.expiryTimes.qlen >= 0
 //@   && (forall k string :: in(k, m.elements) ==> m.elements[k] != nil && allocated(m.elements[k]) && m.elements[k].key == k && m.elements[k].heapEl != nil && allocated(m.elements[k].heapEl) && m.expiryTimes.qin[m.elements[k].heapEl] && me(m.elements[k].heapEl) == m.elements[k])
 //@ pred repQueueSide(m *TTLMap) = (forall it *PQItem :: m.expiryTimes.qin[it] ==> it != nil && tagof(it.Value) == typeid("*mapElement") && me(it) != nil && in(me(it).key, m.elements) && m.elements[me(it).key] == me(it) && me(it).heapEl == it)
-//@ pred repOK(m *TTLMap) = repMapSide(m) && repQueueSide(m)
+//@ pred repOK(m *TTLMap) = repMapSide(m) && repQueueSide(m) && pqRep(m.expiryTimes)
 //@ pred coupled(m *TTLMap) = m.vlen == len(m.elements) && (forall k string :: m.vdom[k] == in(k, m.elements) && (in(k, m.elements) ==> m.vexp[k] == m.elements[k].heapEl.Priority && m.vtag[k] == tagof(m.elements[k].value) && m.vval[k] == payload(m.elements[k].value)))
 //@ pred viewIsAbstraction(m *TTLMap) = m.vlen == len(m.elements) && (forall k string :: m.vdom[k] == in(k, m.elements) && m.vexp[k] == ite(in(k, m.elements), m.elements[k].heapEl.Priority, old(m.vexp[k])) && m.vtag[k] == ite(in(k, m.elements), tagof(m.elements[k].value), old(m.vtag[k])) && m.vval[k] == ite(in(k, m.elements), payload(m.elements[k].value), old(m.vval[k])))
 //@ pred nowsec() = lastclock / 1000000000
@@ -66,55 +67,115 @@ package collections
 //@ pred viewSame(m *TTLMap, k string) = m.vdom[k] == old(m.vdom[k]) && m.vtag[k] == old(m.vtag[k]) && m.vval[k] == old(m.vval[k]) && m.vexp[k] == old(m.vexp[k])
 //@ pred entrySame(m *TTLMap, k string) = in(k, m.elements) == old(in(k, m.elements)) && m.elements[k] == old(m.elements[k]) && (in(k, m.elements) ==> m.elements[k].value == old(m.elements[k].value) && m.elements[k].heapEl.Priority == old(m.elements[k].heapEl.Priority))
 
-// ---- priority queue (assumed: container/heap) ----
+// ---- priority queue: the wrapper is proved over assumed contracts of container/heap ----
+// The ghost view (qin: membership, qlen, qtop) is tied to the representation by pqRep: the heap slice holds exactly the
+// members, each at the position its index field names, the slice is heap ordered and its root is a minimum.
+// container/heap's four functions are assumed to do what their documentation says when they are given pqImpl (whose five
+// methods are proved below to be the heap.Interface the documentation asks for): keep the slice a heap with the items'
+// index fields equal to their positions, add / remove exactly the named item, mark a removed item with index -1.
+//@ spec parent(i int) int
+//@ axiom parent_def: forall i int :: i >= 1 ==> parent(i) == (i - 1) / 2
+//@ pred positioned(q *pqImpl) = forall i int :: 0 <= i && i < len(*q) ==> (*q)[i] != nil && (*q)[i].index == i
+//@ pred ordered(q *pqImpl) = forall i int :: 1 <= i && i < len(*q) ==> (*q)[parent(i)].Priority <= (*q)[i].Priority
+//@ pred rootMin(q *pqImpl) = forall i int :: 0 <= i && i < len(*q) ==> (*q)[0].Priority <= (*q)[i].Priority
+//@ pred inHeap(q *pqImpl, it *PQItem) = it != nil && 0 <= it.index && it.index < len(*q) && (*q)[it.index] == it
+//@ pred heapOK(q *pqImpl) = q != nil && positioned(q) && ordered(q) && rootMin(q)
+//@ pred pqRep(p *PriorityQueue) = p != nil && heapOK(p.impl) && p.qlen == len(*p.impl) && (forall i int :: 0 <= i && i < len(*p.impl) ==> p.qin[(*p.impl)[i]]) && (forall it *PQItem :: p.qin[it] ==> inHeap(p.impl, it)) && (len(*p.impl) > 0 ==> p.qtop == (*p.impl)[0])
+//@ pred hq(h heap.Interface) = asref(payload(h), "*pqImpl")
+
+//@ extern container/heap.Init
+//@   params h
+//@   requires tagof(h) == typeid("*pqImpl") && hq(h) != nil && len(*hq(h)) == 0
+//@   modifies nothing
+//@   nopanic
+//@ extern container/heap.Push
+//@   params h x
+//@   requires tagof(h) == typeid("*pqImpl") && heapOK(hq(h)) && tagof(x) == typeid("*PQItem") && asref(payload(x), "*PQItem") != nil && !inHeap(hq(h), asref(payload(x), "*PQItem"))
+//@   modifies *hq(h), elems(*hq(h)), PQItem.index
+//@   nopanic
+//@   ensures still_a_heap: heapOK(hq(h)) && len(*hq(h)) == old(len(*hq(h))) + 1
+//@   ensures grows_in_place_or_into_a_new_array: backing(*hq(h)) == old(backing(*hq(h))) || fresh(backing(*hq(h)))
+//@   ensures exactly_this_item_added: forall it *PQItem :: inHeap(hq(h), it) <==> (old(inHeap(hq(h), it)) || it == asref(payload(x), "*PQItem"))
+//@ extern container/heap.Pop
+//@   params h
+//@   requires tagof(h) == typeid("*pqImpl") && heapOK(hq(h)) && len(*hq(h)) >= 1
+//@   modifies *hq(h), elems(*hq(h)), PQItem.index
+//@   nopanic
+//@   ensures root_returned: tagof(result) == typeid("*PQItem") && asref(payload(result), "*PQItem") == old((*hq(h))[0]) && asref(payload(result), "*PQItem").index == -1
+//@   ensures still_a_heap: heapOK(hq(h)) && len(*hq(h)) == old(len(*hq(h))) - 1 && backing(*hq(h)) == old(backing(*hq(h)))
+//@   ensures exactly_the_root_removed: forall it *PQItem :: inHeap(hq(h), it) <==> (old(inHeap(hq(h), it)) && it != old((*hq(h))[0]))
+//@ extern container/heap.Remove
+//@   params h i
+//@   requires tagof(h) == typeid("*pqImpl") && heapOK(hq(h)) && 0 <= i && i < len(*hq(h))
+//@   modifies *hq(h), elems(*hq(h)), PQItem.index
+//@   nopanic
+//@   ensures item_returned: tagof(result) == typeid("*PQItem") && asref(payload(result), "*PQItem") == old((*hq(h))[i]) && asref(payload(result), "*PQItem").index == -1
+//@   ensures still_a_heap: heapOK(hq(h)) && len(*hq(h)) == old(len(*hq(h))) - 1 && backing(*hq(h)) == old(backing(*hq(h)))
+//@   ensures exactly_this_item_removed: forall it *PQItem :: inHeap(hq(h), it) <==> (old(inHeap(hq(h), it)) && it != old((*hq(h))[i]))
 
 //@ func NewPriorityQueue
-//@   props C14
-//@   trusted
+//@   props C03 C13 C14
 //@   nopanic
+//@   modifies nothing
+//@   ghost_ensures result.qlen == 0 && (forall it *PQItem :: !result.qin[it])
 //@   ensures fresh(result) && result != nil && result.qlen == 0 && (forall it *PQItem :: !result.qin[it])
+//@   ensures represents_the_empty_queue: pqRep(result)
+
+//@ func (PriorityQueue).Len
+//@   props C03 C13 C14
+//@   requires p.impl != nil
+//@   modifies nothing
+//@   ensures number_of_items: result == len(*p.impl)
 
 //@ func (*PriorityQueue).Push
-//@   props C14
-//@   trusted
+//@   props C03 C13 C14
 //@   nopanic
-//@   requires p != nil && el != nil && !p.qin[el]
-//@   modifies p.qin[el], p.qlen, p.qtop, PQItem.index
+//@   requires pqRep(p) && el != nil && !p.qin[el]
+//@   modifies p.qin[el], p.qlen, p.qtop, PQItem.index, *p.impl, elems(*p.impl)
+//@   ghost_ensures p.qin[el] && p.qlen == old(p.qlen) + 1 && p.qtop == (*p.impl)[0]
 //@   ensures p.qin[el] && p.qlen == old(p.qlen) + 1
+//@   ensures representation_kept: pqRep(p)
+//@   ensures heap_array_kept_or_new: backing(*p.impl) == old(backing(*p.impl)) || fresh(backing(*p.impl))
 
 //@ func (*PriorityQueue).Pop
-//@   props C14
-//@   trusted
+//@   props C03 C13 C14
 //@   nopanic
-//@   requires p != nil && p.qlen > 0
-//@   modifies p.qin, p.qlen, p.qtop, PQItem.index
+//@   requires pqRep(p) && p.qlen > 0
+//@   modifies p.qin, p.qlen, p.qtop, PQItem.index, *p.impl, elems(*p.impl)
+//@   ghost_ensures (forall it *PQItem :: p.qin[it] == (old(p.qin[it]) && it != result)) && p.qlen == old(p.qlen) - 1 && (len(*p.impl) > 0 ==> p.qtop == (*p.impl)[0])
 //@   ensures result != nil && result == old(p.qtop) && old(p.qin[result]) && !p.qin[result] && p.qlen == old(p.qlen) - 1
 //@   ensures minimum: forall it *PQItem :: old(p.qin[it]) ==> result.Priority <= it.Priority
 //@   ensures others_stay: forall it *PQItem :: it != result ==> p.qin[it] == old(p.qin[it])
+//@   ensures representation_kept: pqRep(p)
+//@   ensures heap_array_kept: backing(*p.impl) == old(backing(*p.impl))
 
 //@ func (*PriorityQueue).Peek
-//@   props C14
-//@   trusted
+//@   props C03 C13 C14
 //@   nopanic
-//@   requires p != nil && p.qlen > 0
+//@   requires pqRep(p) && p.qlen > 0
+//@   modifies nothing
 //@   ensures result != nil && result == p.qtop && p.qin[result]
 //@   ensures minimum: forall it *PQItem :: p.qin[it] ==> result.Priority <= it.Priority
 
 //@ func (*PriorityQueue).Update
-//@   props C14
-//@   trusted
+//@   props C03 C13 C14
 //@   nopanic
-//@   requires p != nil && el != nil && p.qin[el]
-//@   modifies el.Priority, p.qtop, PQItem.index
+//@   requires pqRep(p) && el != nil && p.qin[el]
+//@   modifies el.Priority, p.qtop, PQItem.index, *p.impl, elems(*p.impl)
+//@   ghost_ensures p.qtop == (*p.impl)[0]
 //@   ensures el.Priority == priority
+//@   ensures representation_kept: pqRep(p)
+//@   ensures heap_array_kept_or_new: backing(*p.impl) == old(backing(*p.impl)) || fresh(backing(*p.impl))
 
 //@ func (*PriorityQueue).Remove
-//@   props C14
-//@   trusted
+//@   props C03 C13 C14
 //@   nopanic
-//@   requires p != nil && el != nil && p.qin[el]
-//@   modifies p.qin[el], p.qlen, p.qtop, PQItem.index
+//@   requires pqRep(p) && el != nil && p.qin[el]
+//@   modifies p.qin[el], p.qlen, p.qtop, PQItem.index, *p.impl, elems(*p.impl)
+//@   ghost_ensures !p.qin[el] && p.qlen == old(p.qlen) - 1 && (len(*p.impl) > 0 ==> p.qtop == (*p.impl)[0])
 //@   ensures !p.qin[el] && p.qlen == old(p.qlen) - 1 && p.qlen >= 0
+//@   ensures representation_kept: pqRep(p)
+//@   ensures heap_array_kept: backing(*p.impl) == old(backing(*p.impl))
 
 // ---- pqImpl: the heap.Interface the queue hands to container/heap (proved) ----
 // container/heap is correct for any sort.Interface + Push/Pop that behave as documented: Less a strict weak order that
@@ -182,26 +243,28 @@ package collections
 //@   holds m.mutex
 //@   readsclock
 //@   requires m != nil && repOK(m) && iterations == 1
-//@   modifies mapof(m.elements), m.expiryTimes.qin, m.expiryTimes.qlen, m.expiryTimes.qtop, PQItem.index
+//@   modifies mapof(m.elements), m.expiryTimes.qin, m.expiryTimes.qlen, m.expiryTimes.qtop, PQItem.index, *m.expiryTimes.impl, elems(*m.expiryTimes.impl)
 //@   ensures repOK(m) && 0 <= result && result <= 1 && len(m.elements) == old(len(m.elements)) - result
 //@   ensures nothing_removed: result == 0 ==> (forall k string :: entrySame(m, k)) && (old(len(m.elements)) == 0 || (forall k string :: in(k, m.elements) ==> m.elements[k].heapEl.Priority > lastclock / 1000000000))
 //@   ensures removed_the_minimum: result == 1 ==> (exists v string :: old(in(v, m.elements)) && !in(v, m.elements) && (forall k string :: old(in(k, m.elements)) ==> old(m.elements[v].heapEl.Priority) <= old(m.elements[k].heapEl.Priority)) && (forall k string :: k != v ==> entrySame(m, k)))
 //@   loop 1 invariant 0 <= i && i <= 1 && removed == i && repOK(m) && len(m.elements) == old(len(m.elements)) - i
 //@   loop 1 invariant i == 0 ==> (forall k string :: entrySame(m, k)) && len(m.elements) == old(len(m.elements))
 //@   loop 1 invariant i == 1 ==> (exists v string :: old(in(v, m.elements)) && !in(v, m.elements) && (forall k string :: old(in(k, m.elements)) ==> old(m.elements[v].heapEl.Priority) <= old(m.elements[k].heapEl.Priority)) && (forall k string :: k != v ==> entrySame(m, k)))
+//@   ensures heap_array_kept: backing(*m.expiryTimes.impl) == old(backing(*m.expiryTimes.impl))
 
 //@ func (*TTLMap).RemoveLastUsed
 //@   props C03 C09 C13 C14
 //@   nopanic
 //@   holds m.mutex
 //@   requires m != nil && repOK(m) && iterations == 1
-//@   modifies mapof(m.elements), m.expiryTimes.qin, m.expiryTimes.qlen, m.expiryTimes.qtop, PQItem.index
+//@   modifies mapof(m.elements), m.expiryTimes.qin, m.expiryTimes.qlen, m.expiryTimes.qtop, PQItem.index, *m.expiryTimes.impl, elems(*m.expiryTimes.impl)
 //@   ensures repOK(m) && len(m.elements) == old(len(m.elements)) - ite(old(len(m.elements)) > 0, 1, 0)
 //@   ensures empty_map: old(len(m.elements)) == 0 ==> (forall k string :: entrySame(m, k))
 //@   ensures removed_the_minimum: old(len(m.elements)) > 0 ==> (exists v string :: old(in(v, m.elements)) && !in(v, m.elements) && (forall k string :: old(in(k, m.elements)) ==> old(m.elements[v].heapEl.Priority) <= old(m.elements[k].heapEl.Priority)) && (forall k string :: k != v ==> entrySame(m, k)))
 //@   loop 1 invariant 0 <= i && i <= 1 && repOK(m) && len(m.elements) == old(len(m.elements)) - i
 //@   loop 1 invariant i == 0 ==> (forall k string :: entrySame(m, k)) && len(m.elements) == old(len(m.elements))
 //@   loop 1 invariant i == 1 ==> old(len(m.elements)) > 0 && (exists v string :: old(in(v, m.elements)) && !in(v, m.elements) && (forall k string :: old(in(k, m.elements)) ==> old(m.elements[v].heapEl.Priority) <= old(m.elements[k].heapEl.Priority)) && (forall k string :: k != v ==> entrySame(m, k)))
+//@   ensures heap_array_kept: backing(*m.expiryTimes.impl) == old(backing(*m.expiryTimes.impl))
 
 //@ func (*TTLMap).freeSpace
 //@   props C03 C13 C14
@@ -209,10 +272,11 @@ package collections
 //@   holds m.mutex
 //@   readsclock
 //@   requires m != nil && repOK(m) && count == 1
-//@   modifies mapof(m.elements), m.expiryTimes.qin, m.expiryTimes.qlen, m.expiryTimes.qtop, PQItem.index
+//@   modifies mapof(m.elements), m.expiryTimes.qin, m.expiryTimes.qlen, m.expiryTimes.qtop, PQItem.index, *m.expiryTimes.impl, elems(*m.expiryTimes.impl)
 //@   ensures repOK(m) && len(m.elements) == old(len(m.elements)) - ite(old(len(m.elements)) > 0, 1, 0)
 //@   ensures empty_map: old(len(m.elements)) == 0 ==> (forall k string :: entrySame(m, k))
 //@   ensures removed_the_minimum: old(len(m.elements)) > 0 ==> (exists v string :: old(in(v, m.elements)) && !in(v, m.elements) && (forall k string :: old(in(k, m.elements)) ==> old(m.elements[v].heapEl.Priority) <= old(m.elements[k].heapEl.Priority)) && (forall k string :: k != v ==> entrySame(m, k)))
+//@   ensures heap_array_kept: backing(*m.expiryTimes.impl) == old(backing(*m.expiryTimes.impl))
 
 //@ func (*TTLMap).set
 //@   props C03 C13 C14
@@ -220,7 +284,7 @@ package collections
 //@   holds m.mutex
 //@   readsclock
 //@   requires m != nil && repOK(m)
-//@   modifies mapof(m.elements), m.expiryTimes.qin, m.expiryTimes.qlen, m.expiryTimes.qtop, PQItem.index, PQItem.Priority, mapElement.value
+//@   modifies mapof(m.elements), m.expiryTimes.qin, m.expiryTimes.qlen, m.expiryTimes.qtop, PQItem.index, *m.expiryTimes.impl, elems(*m.expiryTimes.impl), PQItem.Priority, mapElement.value
 //@   ensures result == nil && repOK(m)
 //@   ensures stored: in(key, m.elements) && m.elements[key].value == value && m.elements[key].heapEl.Priority == expiryTime
 //@   ensures length: len(m.elements) == old(len(m.elements)) + ite(old(in(key, m.elements)) || (old(len(m.elements)) >= m.capacity && old(len(m.elements)) > 0), 0, 1)
@@ -243,7 +307,7 @@ package collections
 //@   atomic m.mutex
 //@   readsclock
 //@   requires m != nil && m.OnExpire == nil && mapEl != nil
-//@   modifies m.vdom[mapEl.key], m.vlen, mapof(m.elements), m.expiryTimes.qin, m.expiryTimes.qlen, m.expiryTimes.qtop, PQItem.index
+//@   modifies m.vdom[mapEl.key], m.vlen, mapof(m.elements), m.expiryTimes.qin, m.expiryTimes.qlen, m.expiryTimes.qtop, PQItem.index, *m.expiryTimes.impl, elems(*m.expiryTimes.impl)
 //@   ghost_ensures m.vdom[old(mapEl.key)] == in(old(mapEl.key), m.elements) && m.vlen == len(m.elements)
 //@   ensures removed_iff_expired: m.vdom[mapEl.key] == (old(m.vdom[mapEl.key]) && old(m.vexp[mapEl.key]) > lastclock / 1000000000)
 //@   ensures m.vlen == old(m.vlen) - ite(old(m.vdom[mapEl.key]) && !m.vdom[mapEl.key], 1, 0)
@@ -260,7 +324,7 @@ package collections
 //@   nopanic
 //@   readsclock
 //@   requires m != nil && m.OnExpire == nil
-//@   modifies m.vdom[key], m.vlen, mapof(m.elements), m.expiryTimes.qin, m.expiryTimes.qlen, m.expiryTimes.qtop, PQItem.index
+//@   modifies m.vdom[key], m.vlen, mapof(m.elements), m.expiryTimes.qin, m.expiryTimes.qlen, m.expiryTimes.qtop, PQItem.index, *m.expiryTimes.impl, elems(*m.expiryTimes.impl)
 //@   ensures hit_iff_live: result1 <==> (old(m.vdom[key]) && old(m.vexp[key]) > lastclock / 1000000000)
 //@   ensures hit_value: result1 ==> tagof(result0) == m.vtag[key] && payload(result0) == m.vval[key] && m.vdom[key] && m.vlen == old(m.vlen)
 //@   ensures miss_forgets_only_this_key: !result1 ==> !m.vdom[key] && m.vlen == old(m.vlen) - ite(old(m.vdom[key]), 1, 0)
@@ -271,7 +335,7 @@ package collections
 //@   atomic m.mutex
 //@   readsclock
 //@   requires m != nil
-//@   modifies TTLMap.vdom, TTLMap.vtag, TTLMap.vval, TTLMap.vexp, m.vlen, mapof(m.elements), m.expiryTimes.qin, m.expiryTimes.qlen, m.expiryTimes.qtop, PQItem.index, PQItem.Priority, mapElement.value
+//@   modifies TTLMap.vdom, TTLMap.vtag, TTLMap.vval, TTLMap.vexp, m.vlen, mapof(m.elements), m.expiryTimes.qin, m.expiryTimes.qlen, m.expiryTimes.qtop, PQItem.index, *m.expiryTimes.impl, elems(*m.expiryTimes.impl), PQItem.Priority, mapElement.value
 //@   ghost_ensures viewIsAbstraction(m)
 //@   ghost_ensures forall o *TTLMap, k string :: o != m ==> o.vdom[k] == old(o.vdom[k]) && o.vtag[k] == old(o.vtag[k]) && o.vval[k] == old(o.vval[k]) && o.vexp[k] == old(o.vexp[k])
 //@   ensures bad_ttl: ttlSeconds <= 0 ==> result != nil && (forall k string :: viewSame(m, k))
@@ -289,7 +353,7 @@ package collections
 //@   atomic m.mutex
 //@   readsclock
 //@   requires m != nil
-//@   modifies TTLMap.vdom, TTLMap.vtag, TTLMap.vval, TTLMap.vexp, m.vlen, mapof(m.elements), m.expiryTimes.qin, m.expiryTimes.qlen, m.expiryTimes.qtop, PQItem.index, PQItem.Priority, mapElement.value
+//@   modifies TTLMap.vdom, TTLMap.vtag, TTLMap.vval, TTLMap.vexp, m.vlen, mapof(m.elements), m.expiryTimes.qin, m.expiryTimes.qlen, m.expiryTimes.qtop, PQItem.index, *m.expiryTimes.impl, elems(*m.expiryTimes.impl), PQItem.Priority, mapElement.value
 //@   ghost_ensures viewIsAbstraction(m)
 //@   ghost_ensures forall o *TTLMap, k string :: o != m ==> o.vdom[k] == old(o.vdom[k]) && o.vtag[k] == old(o.vtag[k]) && o.vval[k] == old(o.vval[k]) && o.vexp[k] == old(o.vexp[k])
 //@   ensures other_maps_untouched: forall o *TTLMap, k string :: o != m ==> o.vdom[k] == old(o.vdom[k]) && o.vtag[k] == old(o.vtag[k]) && o.vval[k] == old(o.vval[k]) && o.vexp[k] == old(o.vexp[k])
@@ -298,4 +362,4 @@ package collections
 //@   props C09 C14
 //@   readsclock
 //@   requires m != nil && m.OnExpire == nil
-//@   modifies m.vdom[key], m.vlen, mapof(m.elements), m.expiryTimes.qin, m.expiryTimes.qlen, m.expiryTimes.qtop, PQItem.index
+//@   modifies m.vdom[key], m.vlen, mapof(m.elements), m.expiryTimes.qin, m.expiryTimes.qlen, m.expiryTimes.qtop, PQItem.index, *m.expiryTimes.impl, elems(*m.expiryTimes.impl)
